@@ -162,6 +162,13 @@ def windows (masses : List Rat) (w : Width) : List (Rat × Rat) :=
 /-- `target_windows.flat` -/
 def flatten (wins : List (Rat × Rat)) : List Rat := wins.flatMap (fun w => [w.1, w.2])
 
+/-- the adjacent windows `[e₀, e₁), [e₁, e₂), …` between consecutive edges (what target masses
+`m, m + w, m + 2w, …` with an absolute width `w` ask for): neighbours share an edge -/
+def chain : List Rat → List (Rat × Rat)
+  | [] => []
+  | [_] => []
+  | a :: b :: r => (a, b) :: chain (b :: r)
+
 /-! ## one spectrum -/
 
 /-- `sums[idx[::2] >= idx[1::2]] = 0` -/
